@@ -15,11 +15,16 @@
 package event
 
 import (
+	"errors"
+
 	"github.com/emitter-io/emitter/internal/message"
 	"github.com/emitter-io/emitter/internal/security"
 	"github.com/kelindar/binary"
 	"github.com/kelindar/binary/nocopy"
 )
+
+// errInvalidKey is returned when decoding an event whose key is too short to be one.
+var errInvalidKey = errors.New("event: invalid key")
 
 // Various replicated event types.
 const (
@@ -79,8 +84,11 @@ func decodeSubscription(k string, v []byte) (e Subscription, err error) {
 		err = binary.Unmarshal(v, &e)
 	}
 
-	// Decode the key
+	// Decode the key: peer, connection and a non-empty ssid
 	buffer := binary.ToBytes(k)
+	if len(buffer) < 16+4 {
+		return e, errInvalidKey
+	}
 	e.Peer = binary.BigEndian.Uint64(buffer[0:8])
 	e.Conn = security.ID(binary.BigEndian.Uint64(buffer[8:16]))
 	e.Ssid = make(message.Ssid, (len(buffer)-16)/4)
@@ -158,6 +166,9 @@ func decodeConnection(k string, v []byte) (e Connection, err error) {
 
 	// Decode the key
 	buffer := binary.ToBytes(k)
+	if len(buffer) < 16 {
+		return e, errInvalidKey
+	}
 	e.Peer = binary.BigEndian.Uint64(buffer[0:8])
 	e.Conn = security.ID(binary.BigEndian.Uint64(buffer[8:16]))
 	return e, err
